@@ -864,6 +864,74 @@ def units_for(pid):
     return out
 
 
+_dep_index = None
+
+
+def dependency_index():
+    """(verified, assumed, size): unit -> set of (file, function) whose BODY the unit verifies / whose contract it only assumes
+    (an `@fn` section with "assume": true, or an `external_body` stub in a raw block carrying the name of a function some other unit
+    verifies: file unknown, recorded as (None, name)).  Built from the unit files alone (no extraction)."""
+    global _dep_index
+    if _dep_index is not None:
+        return _dep_index
+    verified, assumed, rawtext, size = {}, {}, {}, {}
+    for n in all_units():
+        u = parse_unit(n)
+        verified[n] = set()
+        assumed[n] = set()
+        txt = []
+        k = 0
+        for sct in u.sections:
+            if sct.kind == "fn":
+                k += 1
+                (assumed if sct.opts.get("assume") else verified)[n].add((sct.file, sct.name))
+            elif sct.kind == "raw":
+                txt.append(sct.text)
+        size[n] = k
+        rawtext[n] = "\n".join(txt)
+    allv = set(nm for n in verified for (_, nm) in verified[n])
+    for n, t in rawtext.items():
+        mine = set(nm for (_, nm) in verified[n])
+        for m in re.finditer(r"#\[verifier::external_body\]\s*(?://[^\n]*\n\s*)*pub fn (\w+)", t):
+            if m.group(1) in allv and m.group(1) not in mine:
+                assumed[n].add((None, m.group(1)))
+    _dep_index = (verified, assumed, size)
+    return _dep_index
+
+
+def support_units(unit_names):
+    """a smallest set of units outside `unit_names` that verify the body of every function whose contract one of `unit_names` only
+    assumes (per distinct source function: the smallest unit that verifies it)"""
+    verified, assumed, size = dependency_index()
+    have = set()
+    for n in unit_names:
+        have |= verified.get(n, set())
+    need = set()
+    for n in unit_names:
+        need |= assumed.get(n, set())
+    out = {}
+    for (f, nm) in sorted(need, key=lambda x: (x[0] or "", x[1])):
+        if f is not None:
+            if (f, nm) in have:
+                continue
+            cands = [(size[n], n, [(f, nm)]) for n in verified if n not in unit_names and (f, nm) in verified[n]]
+            picks = [min(cands)] if cands else []
+        else:
+            # a raw stub: every distinct source function of that name not already verified by the property's own units
+            files = sorted(set(ff for n in verified for (ff, x) in verified[n] if x == nm and (ff, x) not in have))
+            picks = []
+            for ff in files:
+                cands = [(size[n], n, [(ff, nm)]) for n in verified if n not in unit_names and (ff, nm) in verified[n]]
+                if cands:
+                    picks.append(min(cands))
+        for (_, n, fns) in picks:
+            out.setdefault(n, [])
+            for (_, x) in fns:
+                if x not in out[n]:
+                    out[n].append(x)
+    return out
+
+
 def load_known():
     if not os.path.exists(KNOWN):
         return {"findings": []}
@@ -892,6 +960,20 @@ def check_property(pid, tier="quick", seed=0):
         futs = [ex.submit(verify_unit, n, seed or None, tier == "thorough") for n in unit_names]
         for f in futs:
             verdicts.append(f.result())
+    # cross-unit modularity: a contract that this property's units only ASSUME must hold where its body is verified; a failure
+    # there leaves this property undecided (its proofs rest on a contract that is not established on this tree)
+    support = support_units(unit_names)
+    support_notes = []
+    if support:
+        with concurrent.futures.ThreadPoolExecutor(max_workers=8) as ex:
+            futs = {n: ex.submit(verify_unit, n, seed or None, False) for n in support}
+            for n, f in futs.items():
+                sv = f.result()
+                all_open_s = set(k["obligation"] for k in known.get("findings", []) if k.get("status") == "open")
+                bad = [t for t in (sv.failed or {}) if not (sv.asm and sv.asm.known.get(t) and t in all_open_s)]
+                if sv.undecided or bad or sv.untagged:
+                    support_notes.append("unit %s, which verifies %s (assumed by this property's units), is not established on this tree: %s" % (
+                        n, ", ".join(support[n][:5]), (sv.undecided or ", ".join(sorted(bad)[:4]) or "untagged failure")[:300]))
     # extra deciders registered per property (census, declaration-shape checks, ...)
     from vxextra import extra_checks
     extras = extra_checks(pid, tier)
@@ -907,6 +989,7 @@ def check_property(pid, tier="quick", seed=0):
     solver_ms = {}
     samples = []
     twin = {}
+    undecided.extend(support_notes)
     for v in verdicts:
         if v.undecided and v.asm is None:
             undecided.append(v.undecided)
@@ -943,9 +1026,10 @@ def check_property(pid, tier="quick", seed=0):
                         masked_fns.add((s0, e0, lab))
         masked_tags = set()
         if masked_fns:
+            # (a) the same function: everything after the failed clause is proved under its assumption; (b) the rest of the unit:
+            # callers are verified against the failing function's CONTRACT, which this tree does not establish
             for ln, tgs in asm.tags.items():
-                if any(s0 <= ln <= e0 for (s0, e0, lab) in masked_fns):
-                    masked_tags.update(t for t in tgs if t in mine and t not in v.failed)
+                masked_tags.update(t for t in tgs if t in mine and t not in v.failed)
             if masked_tags:
                 undecided.append("unit %s: clause(s) %s failed in %s; the property's clauses %s in the same function(s) are not decided by this run" % (
                     v.unit, ", ".join(sorted(foreign)[:4]), ", ".join(sorted(set(lab for (_, _, lab) in masked_fns))[:3]), ", ".join(sorted(masked_tags)[:6])))
